@@ -37,6 +37,10 @@ CLAIMED = {
    text="Rocq theorems over Lb.v: round robin hits every position exactly k times in ANY k*n consecutive tickets from any counter value (sliding-window induction), and under ANY interleaving of the atomic fetch_adds of any number of tasks (tickets are consecutive, counts are permutation invariant); selection is total on non-empty lists and only ever yields members; hash-by is a function of the key value; every member is possible for random. Tie: the real LoadBalanceConnector (from YAML through from_value/init/verify) in front of recording members, sequential and from 2-32 concurrent tasks; laws checked on the observed selections, recorded connector = member whose connect ran.",
    note="DefaultHasher and thread_rng are parameters of the model; usize wrap-around of the counter is outside the window theorem (needs 2^64 requests). Trusted: AtomicUsize atomicity, Coq kernel, glue.",
    tech="Rocq proof (induction, permutation invariance) + law checking on the real connector"),
+ "C06": dict(
+   text="Rocq theorems over Callbacks.v (ConnectCallback / FrameChannelCallback of h11c.rs and the SOCKS Callback applied to the event sequences of Dispatch.process_request): for every listener protocol and session kind exactly one reply is written, it is the success reply iff on_connect ran, on_connect only follows a successful connector connect, success and failure replies are different messages, the SOCKS4/5 failure replies parse with the model's own reply reader leaving nothing behind, and for EVERY body the HTTP 503 parses as status line + headers whose Content-Length is the decimal length of exactly the bytes that follow. The shape facts the model stands on (single on_connect after connect, early returns, stream taken before the relay can fail, replied flag, flush after body) are regenerated from the source on every run (Gen_callbacks.v) and are proof obligations. Tie: the hook-built binary in normal mode on loopback; raw HTTP/SOCKS5/SOCKS4 clients driven through 16 routes x outcome classes and listener-level refusals against fake origins and upstream proxies; bytes received until EOF must equal the extracted model's client_bytes for the class; origin accept counts bound the number of success replies; slow-upstream timing; SOCKS5 UDP association idling out.",
+   note="Partial: the text of the 503 body is a parameter; TLS listeners and the QUIC listener are not exercised end to end; the timing clause (only after) is a theorem about event order plus one slow-upstream timing scenario. Trusted: Coq kernel, translator regexes, extraction, fake endpoints in checks/e2e.py. Fixed finding: failure reply after success reply on a SOCKS5 UDP association (e98a482).",
+   tech="Rocq proof over callback/event model + regenerated source-shape obligations + end-to-end correspondence against the real binary"),
  "C03": dict(
    text="Rocq round-trip theorems writer->reader for every destination codec (SOCKS5 address and full request exchange, SOCKS4/4a, RPFM frame header, SOCKS-UDP header, HTTP CONNECT line incl. Host header) with exact characterisation of refusals; every theorem also states that exactly the following bytes are left. Tie: three-stage differential correspondence (inbound decode, outbound encode, next-hop decode) against the real codecs plus the implementation-only oracle reader(writer(t)) = t or refused.",
    note="Trusted: Coq kernel, extraction, glue. std's SocketAddr text form (IPv6 in particular) is an explicit premise (sockaddr_text_ok) of the CONNECT theorem; invalid UTF-8 inbound hosts are replaced by from_utf8_lossy before rules see them and are outside the theorem domain (compared for panics only).",
